@@ -104,15 +104,19 @@ struct H {
             int slot = (int)(r.at(1) % (long)eph_sem.size());
             bool awaiter = r.at(2) != 0;
             C.st[id].phase = "ephemeral wait";
+            long pre = r.size() > 3 ? r[3] : 0;      // 0: wait at once, 1: yield first, >1: sleep that long first
+            auto delay = [&]() { if (pre == 1) photon::thread_yield(); else if (pre > 1) photon::thread_usleep((uint64_t)pre); };
             if (awaiter) {
                 auto* a = new photon::Awaiter<photon::PhotonContext>();
                 eph_aw[slot] = a;
+                delay();
                 a->suspend();
                 eph_aw[slot] = nullptr;
                 delete a;
             } else {
                 auto* s = new PSem(0);
                 eph_sem[slot] = s;
+                delay();
                 s->wait(1);
                 eph_sem[slot] = nullptr;
                 delete s;
@@ -210,11 +214,29 @@ rc::Gen<Case> gen_case(const vf::Options&) {
             // pairs (waiter, signaller) on ephemeral objects; signaller is another actor or an OS thread
             long pairs = std::min<long>(na / 2, 2);
             for (long p = 0; p < pairs; p++) {
-                c.S("a" + std::to_string(2 * p)).push_back({OP_EPH_WAIT, p, *vf::range(0, 1)});
+                c.S("a" + std::to_string(2 * p)).push_back({OP_EPH_WAIT, p, *vf::range(0, 1), *rc::gen::weightedOneOf<long>({{2, rc::gen::just<long>(0)}, {2, rc::gen::just<long>(1)}, {3, vf::range(2, 120)}})});
                 if (nos > p && *vf::range(0, 1)) c.S("o" + std::to_string(p)).push_back({OP_EPH_SIGNAL, p});
                 else { auto& pr = c.S("a" + std::to_string(2 * p + 1)); if (*vf::range(0, 1)) pr.push_back({OP_YIELD}); pr.push_back({OP_EPH_SIGNAL, p}); }
             }
             c.S("sched") = *gen_schedule(40);
+            return c;
+        }
+        if (na >= 3 && *vf::range(0, 3) == 0) {
+            // "barging" family: a timed waiter at the head, a successor behind it, a signal that covers the head,
+            // a wait that takes part of those tokens before the head runs, and time passing meanwhile
+            long big = *vf::range(2, 4), T = *vf::range(30, 2000);
+            c.cfg[5] = 0;
+            c.S("a0").push_back({OP_WAIT, big, T, *vf::range(0, 1)});
+            if (*vf::range(0, 1)) c.S("a1").push_back({OP_YIELD});
+            c.S("a1").push_back({OP_WAIT, *vf::range(1, big - 1), -1, 0});
+            auto& m = c.S("a2");
+            m.push_back({OP_SLEEP, *vf::range(5, 25)});
+            m.push_back({OP_SIGNAL, big});
+            m.push_back({OP_WAIT, 1, *vf::oneof<long>({0, -1}), 0});
+            m.push_back({OP_BURN, *rc::gen::weightedOneOf<long>({{3, rc::gen::just<long>(T + 20)}, {1, vf::range(0, T)}})});
+            m.push_back({OP_YIELD});
+            for (long i = 3; i < na; i++) c.S("a" + std::to_string(i)).push_back({OP_SLEEP, *gen_duration()});
+            c.S("sched") = *gen_schedule(20);
             return c;
         }
         for (long i = 0; i < na; i++) {
